@@ -470,6 +470,15 @@ func c02F10(e *c02Env, rng *kit.RNG) {
 	e.mu.Lock()
 	e.f10Reached = true
 	e.mu.Unlock()
+	// let the followers finish becoming followers of the resumed leader (they
+	// reconcile through its answer); otherwise the leader's death below races
+	// their epoch-offset request and pushes them into the lossy HW fallback,
+	// which is a different (known) matter
+	for _, id := range c02Others(e.c, nl0.ID) {
+		if !e.waitFollows(id, nl0.ID) {
+			return
+		}
+	}
 	e.step("after resume: leader=%s ISR=%v", nl0.ID, nl0.Partition(e.stream, 0).GetISR())
 	// the leader dies at once, before it could shrink the ISR again
 	e.stop(nl0.ID)
